@@ -37,14 +37,24 @@ CONFIGS = [('xml', None), ('xml', 'soft'), ('xml', 'lxml'), ('soap11', None), ('
            ('json', None), ('json', 'soft'), ('yaml', None), ('yaml', 'soft'), ('msgpack', None), ('msgpack', 'soft'), ('msgpackrpc', 'soft'),
            ('httprpc', None), ('httprpc', 'soft')]
 
-HOSTILE = ['abc', '', ' ', '1e999', '-1e999', 'NaN', 'INF', '-', '+', '0x10', '9' * 400, '2020-13-01', '2020-02-30', '2020-02-30T00:00:00',
+HOSTILE = ['\x00', 'a\x08b', '\ud800', '\ufffe', ']]>', '<x>&', 'abc', '', ' ', '1e999', '-1e999', 'NaN', 'INF', '-', '+', '0x10', '9' * 400, '2020-13-01', '2020-02-30', '2020-02-30T00:00:00',
            '24:00:00', '25:61:61', 'P', 'PT', 'P1Y', '-P', '!!!', 'AA=', '%%%', '１２', 'true ', 'TRUE', 'null', 'None', '{}', '[]', 'é' * 50,
            '0000-00-00', '12:00', '1.2.3', '1,5', '--1', '00000000-0000-0000-0000-00000000000', 'zzzzzzzz-zzzz-zzzz-zzzz-zzzzzzzzzzzz',
            '2020-01-01T00:00:00+99:99', '2020-01-01T00:00:00.1234567890123Z', 'PT1.5.5S', ' ', 'a' * 5000]
 
 
+# "a well-formed fault document of the OUTPUT protocol": applications whose output protocol differs from the input protocol
+MIXED = [('json', 'soft', 'xml'), ('json', None, 'soap11'), ('yaml', 'soft', 'xml'), ('msgpack', 'soft', 'soap11'), ('httprpc', 'soft', 'xml'),
+         ('json', 'soft', 'msgpack'), ('json', 'soft', 'httprpc'), ('msgpack', None, 'yaml')]
+
+HOSTILE_NAMES = ['\x00', 'op\x08', 'a\x1fb', '\ud800', 'x\udfffy', '\ufffe', '\x7f', 'n' * 5000, '<a>', ']]>', '&amp;', '"', "'", '\xe9',
+                 '\U0001d4b3', 'a b', 'a\r\nb', '', '{urn:x}y', '%s', '%(a)s', '{0}']
+
+
 def shards(tier, seed):
-    return [{'shard': '%s/%s' % c, 'kind': c[0], 'validator': c[1], 'tier': tier, 'seed': seed} for c in CONFIGS]
+    out = [{'shard': '%s/%s' % c, 'kind': c[0], 'validator': c[1], 'tier': tier, 'seed': seed} for c in CONFIGS]
+    out += [{'shard': '%s/%s/out=%s' % c, 'kind': c[0], 'validator': c[1], 'out': c[2], 'tier': tier, 'seed': seed} for c in MIXED]
+    return out
 
 
 def universe(seed, uid):
@@ -61,10 +71,11 @@ def universe(seed, uid):
 
 
 class Target(object):
-    def __init__(self, ir, kind, validator, rng):
+    def __init__(self, ir, kind, validator, rng, outkind=None):
         from spyne.server import ServerBase
         from spyne.server.wsgi import WsgiApplication
         self.kind = kind
+        self.outkind = outkind or kind
         self.ir = ir
         if kind in ('xml', 'soap11', 'soap12'):
             self.C = c01.Ctx(ir, kind, validator, rng)
@@ -77,11 +88,13 @@ class Target(object):
             if kind == 'httprpc':
                 from spyne.protocol.http import HttpRpc
                 from spyne.protocol.json import JsonDocument
-                app = self.B.app(HttpRpc(validator=validator), JsonDocument())
+                app = self.B.app(HttpRpc(validator=validator), M.make_protocols(outkind, None)[1] if outkind else JsonDocument())
                 self.server = None
             else:
                 self.conf = refdict.Conf(kind, True, 'dict', False)
                 inp, outp = c02.make_protocols(self.conf, validator)
+                if outkind:
+                    outp = M.make_protocols(outkind, None)[1]
                 app = self.B.app(inp, outp)
                 self.server = ServerBase(app)
                 self.codec = refdict.Codec(ir, self.conf)
@@ -110,6 +123,8 @@ class Target(object):
 
     def fault_of(self, body):
         k = self.kind
+        if self.outkind != k:
+            return self.fault_of_out(body)
         if k in ('xml', 'soap11', 'soap12'):
             f = M.decode_fault(k, body)
             code = f[0] if f else None
@@ -128,6 +143,27 @@ class Target(object):
             return None
         c = f[0] if f else None
         return c.decode() if isinstance(c, bytes) else c
+
+
+def _fault_of_out(self, body):
+    ok = self.outkind
+    if ok == 'httprpc':
+        # HttpRpc writes a fault as text: code, blank line, string
+        try:
+            first = body.decode('utf8').split('\n', 1)[0]
+        except UnicodeDecodeError:
+            return None
+        return first if first.split('.')[0] in ('Client', 'Server') else None
+    f = M.decode_fault(ok, body)
+    code = f[0] if f else None
+    if isinstance(code, bytes):
+        code = code.decode()
+    if code and ':' in code:
+        code = code.split(':', 1)[1]
+    return code
+
+
+Target.fault_of_out = _fault_of_out
 
 
 def uses_xml_only(t):
@@ -217,7 +253,7 @@ def process(R, T, data, driver, cls, repro, path=None, qs=None):
             R.violation('malformed request answered with fault %r (not in the Client family)' % fault, case,
                         mech='server_fault_on_malformed:%s:%s' % (kind, str(fault)[:40]))
             return
-        if code is not None and kind not in ('soap11', 'soap12') and not (400 <= code < 500):
+        if code is not None and T.outkind not in ('soap11', 'soap12') and not (400 <= code < 500):
             R.violation('client fault %r answered with HTTP %s' % (fault, code), case, mech='client_fault_status:%s:%s' % (kind, code))
             return
         if names:
@@ -231,7 +267,7 @@ def process(R, T, data, driver, cls, repro, path=None, qs=None):
             R.violation('%d user functions ran for one request' % len(names), case, mech='invocation_count')
             return
         R.nontrivial(kind, repro.get('validator'), driver, cls, 'normal', len(names))
-    R.cell('%s|%s|%s' % (kind, driver, cls.split(':')[0]))
+    R.cell('%s%s|%s|%s' % (kind, '>' + T.outkind if T.outkind != kind else '', driver, cls.split(':')[0]))
 
 
 # ---------------------------------------------------------------- mutation engines
@@ -300,8 +336,24 @@ def dict_mutants(rng, codec, doc, n):
         body = doc
     pos = list(positions(body))
     for _ in range(n):
-        op = rng.choice(('kind', 'kind', 'hostile', 'hostile', 'delete', 'unknown', 'dupkey', 'methodkey', 'toplevel'))
+        op = rng.choice(('kind', 'kind', 'hostile', 'hostile', 'delete', 'unknown', 'dupkey', 'methodkey', 'toplevel', 'hostile_name', 'hostile_name'))
         try:
+            if op == 'hostile_name':
+                nm = rng.choice(HOSTILE_NAMES)
+                if mkey is not None and rng.random() < .6:
+                    out.append(('mut:hostile_method_name', codec.dumps({(mkey[:rng.randint(0, len(mkey))] + nm if rng.random() < .5 else nm): body})))
+                elif mkey is None and isinstance(body, list) and len(body) == 4:
+                    out.append(('mut:hostile_method_name', codec.dumps([body[0], body[1], nm, body[3]])))
+                else:
+                    p = rng.choice(pos)
+                    m = copy.deepcopy(body)
+                    cur = m
+                    for k in p[:-1]:
+                        cur = cur[k]
+                    if isinstance(cur, dict):
+                        cur[nm] = rng.choice(SUBST)[1]
+                        out.append(('mut:hostile_member_name', codec.dumps({mkey: m} if mkey is not None else m)))
+                continue
             p = rng.choice(pos)
             if op == 'kind':
                 m = set_path(body, p, rng.choice(SUBST)[1])
@@ -358,7 +410,8 @@ def query_mutants(rng, path, pairs, n):
             i = rng.randrange(len(ps))
             ps[i] = (ps[i][0] + rng.choice(('[0]', '[99999999]', '[-1]', '[x]', '[', '[0][0]')), ps[i][1])
         elif op == 'path':
-            p = rng.choice(('/', '', path + '/', path + '/x', '//', path.upper()))
+            p = rng.choice(('/', '', path + '/', path + '/x', '//', path.upper(), path + '\x08', '/\x00', '/\x7f', '/\xe9', '/op\x1f', path + '%s',
+                            '/' + 'n' * 3000, '/<a>', '/]]>'))
         qs = '&'.join('%s=%s' % (quote(k, safe=''), quote(v, safe='')) for k, v in ps)
         if op == 'badpct':
             qs += rng.choice(('&%', '&a=%zz', '&%=%', '&=', '&&', '&a', '&a=%ff%fe', '&%00=1'))
@@ -380,11 +433,11 @@ def run(spec, R):
     for uid in range(nuni):
         ir = universe(spec['seed'], uid)
         try:
-            T = Target(ir, kind, validator, rng)
+            T = Target(ir, kind, validator, rng, spec.get('out'))
         except Exception as e:
             R.skip('universe rejected at construction: %s' % type(e).__name__)
             continue
-        repro = {'seed': spec['seed'], 'uid': uid, 'kind': kind, 'validator': validator}
+        repro = {'seed': spec['seed'], 'uid': uid, 'kind': kind, 'validator': validator, 'out': spec.get('out')}
         drivers = ('wsgi',) if kind == 'httprpc' else ('server', 'wsgi')
         # random bytes
         for i in range(nrand // nuni):
@@ -447,7 +500,8 @@ def run(spec, R):
 def replay(v, R):
     c = v['repro']
     print('replay by re-running the shard: ./vf check C10 (shard %s/%s); input (base64): %s' % (c.get('kind'), c.get('validator'), c.get('input_b64', '')[:200]))
-    run({'kind': c['kind'], 'validator': c['validator'], 'tier': 'quick', 'seed': c['seed'], 'shard': '%s/%s' % (c['kind'], c['validator'])}, R)
+    shard = '%s/%s' % (c['kind'], c['validator']) + ('/out=%s' % c['out'] if c.get('out') else '')
+    run({'kind': c['kind'], 'validator': c['validator'], 'out': c.get('out'), 'tier': 'quick', 'seed': c['seed'], 'shard': shard}, R)
 
 
 def classify(v):
